@@ -1,9 +1,30 @@
+pub mod aead;
+pub mod ctrjump;
+pub mod drg;
 pub mod hashctx;
+pub mod hmacsplit;
+pub mod lifecycle;
+pub mod macs;
+pub mod polysplit;
+pub mod sigchannel;
+pub mod streampos;
+pub mod streams;
 
 use crate::trace::Scenario;
 
 pub fn all() -> Vec<&'static dyn Scenario> {
-    vec![&hashctx::HashCtx]
+    vec![
+        &hashctx::HashCtx,
+        &ctrjump::CtrJump,
+        &streampos::StreamPos,
+        &drg::DrgScn,
+        &polysplit::PolySplit,
+        &aead::AeadFlow,
+        &aead::AeadTamper,
+        &hmacsplit::HmacSplit,
+        &lifecycle::Lifecycle,
+        &sigchannel::SigChannel,
+    ]
 }
 
 pub fn by_name(n: &str) -> Option<&'static dyn Scenario> {
